@@ -12,7 +12,7 @@ def generate(rng, tier="quick"):
     maxc = rng.choice([1, 2, 3, 6])
     # in some runs a "crash" is the death of the whole process (fresh copy of the library
     # afterwards: nothing memoised survives), each node being its own process
-    procs = rng.random() < 0.12 and cfg["psets"][0]["group"]["kind"] in gen.CHEAP_TO_REIMPORT
+    procs = rng.random() < 0.08 and cfg["psets"][0]["group"]["kind"] in gen.CHEAP_TO_REIMPORT
     if procs:
         cfg["fresh_hosts"] = True
         cfg["nodes"][0]["host"], cfg["nodes"][1]["host"] = 0, 1
@@ -43,6 +43,18 @@ class Oracle(Hooks):
                 if started and started[0]["out"].startswith("exc"):
                     self.flag(w, "start-failed", "honest start() raised %s" % started[0]["out"],
                               group=gk, cls=n.cls, exc=started[0]["out"])
+        # "...also when either end was persisted with serialize() and revived with
+        # from_serialized() in between": an honest persist or restore must not fail
+        for e in w.events:
+            if e["op"] in ("recover", "persist") and e["out"].startswith("exc:"):
+                n = w.nodes[e["n"]]
+                if e["op"] == "persist" and n.out is None:
+                    continue
+                self.flag(w, "persist-restore-failed", "%s raised %s on an honest %s" %
+                          ("from_serialized()" if e["op"] == "recover" else "serialize()", e["out"][4:],
+                           "restore under the same role and parameters" if e["op"] == "recover" else "started instance"),
+                          group=gk, cls=n.cls, op=e["op"], exc=e["out"][4:])
+                return
         # every key ever returned in this exchange must be the same 32 bytes
         keys = [(e["n"], e["key"]) for e in w.events if e["op"] == "deliver" and e["out"] == "key"]
         for n, k in keys:
